@@ -71,6 +71,10 @@ def run(tier, seed, selftest=False, replay=None):
                 raise MachineryError("no verdict for run " + r["id"])
             for pos, cl, f_ in j["bad"]:
                 e = r["events"][pos - 1]
+                # known-finding shape, read off javac's own diagnostic: an *erased* program in which javac's inference for a diamond
+                # produced a captured type variable (CAP#n) that a later argument does not fit
+                if cl == "PassOracle" and f_ % 2 == 0 and "CAP#" in e["out"] and "<>" in e["out"]:
+                    cl = "PassOracle/ErasedDiamondCapture"
                 verdict.add(cl, {"id": r["id"], "event": e, "file": f_, "schedule": [x["batch"] for x in r["events"] if len(x["batch"]) > 1]},
                             "%s for file %s (%s program) in batch %s of %s; javac: %s" % (
                                 cl, f_, "generated" if f_ % 2 else "erased", e["batch"], r["id"], e["out"][:300].replace("\n", " | ")))
